@@ -108,7 +108,8 @@ def run(prog: Program, res: Result) -> None:  # noqa: PLR0912, PLR0915
                 if isinstance(sub_, ast.Name):
                     defs_ = [a.value for a in ast.walk(f.node) if isinstance(a, ast.Assign) and any(isinstance(t_, ast.Name) and t_.id == sub_.id for t_ in a.targets)]
                     sub_ = defs_[0] if len(defs_) == 1 else None
-                carry_ok = sub_ is not None and "parent_buffer.size" in norm(sub_, 300) and "isinstance(parent_buffer, LimitedStringIO)" in norm(sub_, 300)
+                # `<parent>.size if isinstance(<parent>, LimitedStringIO) else 0` (the normal form has already undone a negated test)
+                carry_ok = isinstance(sub_, ast.IfExp) and norm(sub_.test) == "isinstance(parent_buffer, LimitedStringIO)" and norm(sub_.body) == "parent_buffer.size" and isinstance(sub_.orelse, ast.Constant) and sub_.orelse.value == 0
                 ok = ok and carry_ok
             if ok:
                 res.ok("C06.R1", site, what, f"limit={txt}")
@@ -271,7 +272,7 @@ def run(prog: Program, res: Result) -> None:  # noqa: PLR0912, PLR0915
                 if fi is not None and fi.cls is ctx and fi.name == "extend":
                     cfg = CFG(fi.node)
                     tn = cfg_node_of(cfg, c)
-                    t = guarded_by_test(cfg, tn, lambda e: True if (isinstance(e, ast.Compare) and len(e.ops) == 1 and isinstance(e.ops[0], (ast.Gt, ast.GtE)) and "self.scope.size()" in norm(e.left) and "context_depth_limit" in norm(e.comparators[0])) else None) if tn else None
+                    t = guarded_by_test(cfg, tn, lambda e: True if (isinstance(e, ast.Compare) and len(e.ops) == 1 and isinstance(e.ops[0], ast.Gt) and "self.scope.size()" in norm(e.left) and "context_depth_limit" in norm(e.comparators[0])) else None) if tn else None
                     if t is not None and any(lab == "true" and isinstance(m_.node, ast.Raise) and "ContextDepthError" in norm(m_.node) for m_, lab in t.succ):
                         res.ok("C06.R4", f"{mod.relpath}:{c.lineno} {q}", what, f"dominated by `{norm(t.node)}` -> ContextDepthError")
                     else:
@@ -299,7 +300,7 @@ def run(prog: Program, res: Result) -> None:  # noqa: PLR0912, PLR0915
             if fi.cls is ctx and fi.name == "copy":
                 cfg = CFG(fi.node)
                 tn = cfg_node_of(cfg, c)
-                t = guarded_by_test(cfg, tn, lambda e: True if (isinstance(e, ast.Compare) and len(e.ops) == 1 and isinstance(e.ops[0], (ast.Gt, ast.GtE)) and "self._copy_depth" in norm(e.left) and "context_depth_limit" in norm(e.comparators[0])) else None) if tn else None
+                t = guarded_by_test(cfg, tn, lambda e: True if (isinstance(e, ast.Compare) and len(e.ops) == 1 and isinstance(e.ops[0], ast.Gt) and "self._copy_depth" in norm(e.left) and "context_depth_limit" in norm(e.comparators[0])) else None) if tn else None
                 kw = {k.arg: norm(k.value) for k in c.keywords}
                 depth_ok = kw.get("copy_depth") == "self._copy_depth + 1"
                 carry_ok = kw.get("local_namespace_carry") == "self.get_size_of_locals()" and kw.get("loop_iteration_carry") == "loop_iteration_carry"
